@@ -482,7 +482,7 @@ class SimpleJSONRPCDispatcher(SimpleXMLRPCDispatcher, object):
         if func is not None:
             try:
                 # Call the method
-                if isinstance(params, utils.ListType):
+                if isinstance(params, (utils.ListType, utils.TupleType)):
                     return func(*params)
                 else:
                     return func(**params)
